@@ -99,7 +99,7 @@ pub fn run() -> i32 {
     let mut r = Report::new("C13");
     r.class_parts = Some(1);
     let thorough = r.thorough();
-    r.rule = "respelling operators, applied one occurrence at a time and at all occurrences, to every rule of rulegen(3) (thorough: plus the frozen corpus of documented / test-suite / example-project rules) in which they apply: `>`/`=>`/`->`, `|`/`//`, `*`/`∅`, `...`/`..`/`…`, `⟨⟩`/`<>`, a space between all characters inside matrices, a trailing `;; text`, renaming of each alpha letter to every other Greek and Latin letter, renumbering of variables; all 177 feature spellings of the frozen synonym table in every matrix position (input, output, context, exception, IPA / group / % modifier, structure, set; +, - and α) in the rule lexer and in both alias lexers; word respellings `'`/`ˈ`, `,`/`ˌ`, `:`/`ː`, `;`/`ː.`, doubled segment / length mark, `^` / tie bar and the 20 input aliases. Oracle: original and respelling give equal words, or errors of the same variant. Non-trivial = both Ok.".into();
+    r.rule = "respelling operators, applied one occurrence at a time and at all occurrences, to every rule of rulegen(3) (thorough: plus the frozen corpus of documented / test-suite / example-project rules) in which they apply: `>`/`=>`/`->`, `|`/`//`, `*`/`∅`, `...`/`..`/`…`, `⟨⟩`/`<>`, a space between all characters inside matrices, a trailing `;; text`, renaming of each alpha letter to six other letters, plus 11 templates with plain and inverted alphas renamed to every Greek letter α..ω and every Latin capital, renumbering of variables; all 177 feature spellings of the frozen synonym table in every matrix position (input, output, context, exception, IPA / group / % modifier, structure, set; +, - and α) in the rule lexer and in both alias lexers; word respellings `'`/`ˈ`, `,`/`ˌ`, `:`/`ː`, `;`/`ː.`, doubled segment / length mark, `^` / tie bar and the 20 input aliases. Oracle: original and respelling give equal words, or errors of the same variant. Non-trivial = both Ok.".into();
     let words = word_pool();
     let mut tot = Acc::default();
     // ---- operators on generated rules
@@ -127,6 +127,24 @@ pub fn run() -> i32 {
         for (kind, alt) in alts { cmp(kind, &base, &[alt], &words, &words, (&[], &[]), (&[], &[]), a); }
     }, |a| tot.merge(a));
     r.boxes.push(json!({"box": "operators on rules", "rules": rules.len(), "comparisons": tot.evals, "by_kind": tot.per_kind.clone()}));
+    // ---- alpha letters: every Greek letter α..ω and every Latin capital, plain and inverted, in every matrix slot
+    let templates = ["[+cons, -son, αvoice] > [-αvoice]", "[αvoice] > [tone:7] / _ [αvoice]", "[-αvoice] > [αvoice]", "C:[-αvoice] > [tone:7] / [αvoice] _", "V > [αhigh, -βback] / _ C V:[αhigh, βback]",
+        "%:[αstress] > [tone:7] / _ %:[-αstress]", "a > e | _ [-αvoice] [αvoice]", "[-αvoice, -βcont] > [αvoice, βcont]", "{[αvoice], a} > [-αvoice] / _ #", "⟨C:[αvoice] V⟩ > [tone:7] / _ [-αvoice]", "t > [-αPLACE] / _ [αPLACE]"];
+    let mut letters: Vec<char> = ('α'..='ω').collect(); letters.extend('A'..='Z');
+    let awords: Vec<String> = ["ba.pa.za.sa", "ap.ta", "ab.da", "ˈta.ta", "taˈta", "pi.tu", "ad.ta", "at.da", "tka", "a"].iter().map(|s| s.to_string()).collect();
+    let mut ta = Acc::default();
+    for t in templates {
+        let base = vec![t.to_string()];
+        let Some(x) = run_outcome(&base, &awords, &[], &[]) else { continue };
+        for to in &letters { for (greek, other) in [('α', 'β'), ('β', 'α')] {
+            if !t.contains(greek) || *to == greek || (*to == other && t.contains(other)) { continue; }
+            let alt = t.replace(greek, &to.to_string());
+            cmp_with("alpha-letter", &x, &base, &[alt], &awords, &awords, (&[], &[]), (&[], &[]), &mut ta);
+        } }
+    }
+    r.boxes.push(json!({"box": "alpha letters: 11 templates (plain and inverted uses, two alphas, nodes) x every Greek and Latin letter", "letters": letters.len(), "comparisons": ta.evals, "equal_ok": ta.equal_ok, "equal_err": ta.equal_err}));
+    r.guard(ta.equal_ok > 2000, "alpha letters: more than 2000 equal Ok outcomes");
+    tot.merge(ta);
     // ---- feature synonyms
     let syn: Value = serde_json::from_str(&std::fs::read_to_string("/verif/fixtures/feature_synonyms.json").expect("fixture feature_synonyms.json")).expect("json");
     let uni: Vec<String> = super::c04::segment_universe(false).into_iter().map(|x| x.0).step_by(if thorough { 1 } else { 3 }).collect();
